@@ -19,6 +19,7 @@ RULE = (
     "casefold+blank-collapse of L1 and L2 are equal. (4) reference vs inline: for (text, dest, title) from grammars in which both "
     "spellings are well formed, both or neither yield a link/image, and if both then identical tokens, attrs and children. "
     "Non-trivial = case where >=1 use resolves through a definition; distinct by the generated texts."
+    " (5) a definition resolves identically directly after each of 18 closed constructs; definition content fits the lines of its map; (4) also with overridden link hooks, code disabled, destination on its own line."
 )
 ASSUMPTIONS = ["label equivalence oracle = str.casefold() after ' '.join(label.split())", "commonmark preset (+ inline_definitions for the accounting part)"]
 
